@@ -124,8 +124,10 @@ def check(repo: Repo, rep: Report) -> None:
     rep.ob("P1-periodic", per, "swallow path disposes the periodic subscription", disp_ok,
            "after a handled exception the periodic work is not stopped")
     sp = repo.fn(C, "CatchScheduler.schedule_periodic")
+    inner_names = {"self._scheduler"} | {u(s.node.targets[0]) for s in sites(sp) if isinstance(s.node, ast.Assign) and "self._scheduler" in u(s.node.value)
+                                         and isinstance(s.node.targets[0], ast.Name)}
     calls = [s for s in sites(sp) if isinstance(s.node, ast.Call) and isinstance(s.node.func, ast.Attribute) and s.node.func.attr == "schedule_periodic"
-             and dotted(s.node.func.value) in ("scheduler", "self._scheduler")]
+             and dotted(s.node.func.value) in inner_names]
     ok = len(calls) == 1 and [u(a) for a in calls[0].node.args] == [sp.params[1], "periodic"] and \
         {k.arg: u(k.value) for k in calls[0].node.keywords}.get("state") == "state" and \
         isinstance(calls[0].stmt, ast.Assign) and u(calls[0].stmt.targets[0]) == "disp.disposable"
